@@ -22,7 +22,8 @@ from .checks_pipeline import rand_handler
 
 C18_CLAUSES = ["T_Completes", "T_MetricsDashFree", "T_HeaderWritten", "T_HeaderParses", "T_SubjectsRecovered", "T_GroupsRecovered",
                "T_NoColumnShift", "T_ReadBack"]
-C20_CLAUSES = ["T_Completes", "T_Loaded", "T_PerSubject", "T_Summary", "T_OrderIrrelevant", "T_Across"]
+C20_CLAUSES = ["T_Completes", "T_Loaded", "T_PerSubject", "T_Summary", "T_OrderIrrelevant", "T_Across", "T_AcrossValues",
+               "T_QueriesReadOnly"]
 
 
 def chars(s: str):
@@ -197,7 +198,8 @@ def rec_c20(table, ng, nm, subjects, workdir: Path, perm, meta=None) -> dict:
     groups = [f"g{g}" for g in range(1, ng + 1)]
     metrics = [f"m{m}" for m in range(1, nm + 1)]
     rec = {"ng": ng, "nm": nm, "ns": ns, "cells": [[cell_record(c[1]) for c in row] for row in table], "out": "ok",
-           "loaded": [], "one": [], "summ": [], "across": [], "summp": [], "meta": dict(meta or {})}
+           "loaded": [], "one": [], "summ": [], "across": [], "summp": [], "summ2": [], "loaded2": [], "acrossvals": [],
+           "meta": dict(meta or {})}
     rec["meta"]["table"] = [[c[0] for c in row] for row in table]
     shutil.rmtree(workdir, ignore_errors=True)
     workdir.mkdir(parents=True)
@@ -237,6 +239,21 @@ def rec_c20(table, ng, nm, subjects, workdir: Path, perm, meta=None) -> dict:
                 rec["across"] = [summ_record(ac[m]) for m in metrics]
             except Exception:  # noqa: BLE001
                 rec["across"] = [summ_record(None) for m in metrics]
+            # every accessor of the statistics object is a pure observer: use them all, then ask again
+            ag = []
+            for m in metrics:
+                try:
+                    ag.append([loaded_record(x) for x in st.get_across_groups(m)])
+                    st.get_across_groups(m)
+                except Exception:  # noqa: BLE001
+                    ag.append([])
+            rec["acrossvals"] = ag
+            try:
+                st.get_summary_dict(include_across_group=False)
+            except Exception:  # noqa: BLE001
+                pass
+            rec["summ2"] = summaries(st)
+            rec["loaded2"] = [[[loaded_record(x) for x in st.get(g, m)] for m in metrics] for g in groups]
             write(workdir / "p.tsv", perm)
             rec["summp"] = summaries(Panoptica_Statistic.from_file(str(workdir / "p.tsv")))
     except Exception as e:  # noqa: BLE001
@@ -248,6 +265,9 @@ def rec_c20(table, ng, nm, subjects, workdir: Path, perm, meta=None) -> dict:
         rec["one"] = rec["one"] or [[[TOK("skip")] * nm] * ng] * ns
         rec["summ"] = rec["summ"] or [[z] * nm] * ng
         rec["summp"] = rec["summp"] or [[z] * nm] * ng
+        rec["summ2"] = rec["summ2"] or [[z] * nm] * ng
+        rec["loaded2"] = rec["loaded2"] or [[[TOK("skip")] * ns] * nm] * ng
+        rec["acrossvals"] = rec["acrossvals"] or [[TOK("skip")]] * nm
         rec["across"] = rec["across"] or [z] * nm
     finally:
         shutil.rmtree(workdir, ignore_errors=True)
